@@ -257,6 +257,28 @@ def run(tier):
             gapcap = max(1, min(gapcap, 2 ** 31 - 1 - 2 * D))
             random_trace(rec, rng, D, steps, gapcap)
             ntr += 1
+    # realistic intervals (rps 2 .. 1000): calls landing at chosen fractions of a slot after k whole idle intervals
+    for D in (10 ** 6, 10 ** 7, 10 ** 8, 5 * 10 ** 8):
+        for rep in range(2 if not thorough else 10):
+            pol = _mk(D)
+            rec.emit({"ev": "New", "D": D})
+            rel = BASE + rng.randrange(10 ** 9)
+            first = True
+            kmax = max(0, min(3, (2 ** 31 - 1 - 2 * D) // D - 1))
+            for f in [0, 1, 999, 500, 990, 999, 9999, 1, 0, 9990, 5000, 9999, 9999, 10000, 10001, 1, 9995]:
+                g = 0 if first else (D * f) // 10000 + D * rng.randrange(0, kmax + 1)
+                first = False
+                g = min(g, 2 ** 31 - 1 - 2 * D)
+                ts = rel + g
+                try:
+                    r = pol.get_timeout(ts)
+                    delay = 0 if r is None else int(r)
+                except Exception as e:
+                    rec.emit({"ev": "Crash", "exc": type(e).__name__})
+                    break
+                rec.emit({"ev": "Call", "gap": g, "delay": max(min(delay, 2 ** 31 - 1), -2 ** 31 + 1)})
+                rel = ts + delay
+            ntr += 1
     path = rec.close()
     v = trace.validate("TracePolicer.tla", "TracePolicer.cfg", path, timeout=1200)
     chk.add_tlc(v["res"], "TracePolicer")
